@@ -96,6 +96,33 @@ func VerifCompareOracle() {
 	verifAssert(got == want, "Compare agrees with (table,key,id) order")
 }
 
+// vLongName: "t,<key>,<id>" with a start key of exactly kl arbitrary bytes and a one-digit id.
+func vLongName(kl int) (n, k, id []byte) {
+	k = verifBytesN(kl)
+	id = []byte{byte('0' + verifInt(1, 2))}
+	n = append([]byte("t,"), k...)
+	n = append(n, ',')
+	n = append(n, id...)
+	return n, k, id
+}
+
+// VerifCompareLongKeys: the oracle and antisymmetry for start keys of KL-1 and KL bytes (long
+// enough for word-at-a-time or vectorised comparison paths), fixed table, one-digit ids.
+func VerifCompareLongKeys() {
+	KL := verifParam("KL")
+	a, ka, ia := vLongName(KL - verifChoose(2))
+	b, kb, ib := vLongName(KL - verifChoose(2))
+	t := []byte("t")
+	want := vOracle(t, ka, ia, t, kb, ib)
+	got := vSign(Compare(a, b))
+	verifObserveBytes("a", a)
+	verifObserveBytes("b", b)
+	verifObserveInt("got", got)
+	verifReach("compared-long")
+	verifAssert(got == want, "Compare agrees with (table,key,id) order")
+	verifAssert(vSign(Compare(b, a)) == -got, "Compare is antisymmetric")
+}
+
 // VerifCompareAntisym: the real function is antisymmetric and reflexive on its own.
 func VerifCompareAntisym() {
 	L := verifParam("L")
